@@ -5,7 +5,7 @@ from vmon.oracle import geometry as G
 
 CELL_CLASSES = ["ortho", "tri+++", "tri++-", "tri+-+", "tri+--", "tri-++", "tri-+-", "tri--+", "tri---", "tri_minimal", "ortho_minimal",
                 "upper_tri", "general_tri", "rotated_ortho", "left_handed", "ortho_big", "tri_big"]
-POSES = ["random", "identity", "rot90", "rot180", "axis_parallel", "axis_antiparallel", "axis_near_antiparallel", "axis_antiparallel_exact", "identity_exact"]
+POSES = ["random", "identity", "rot90", "rot180", "axis_parallel", "axis_antiparallel", "axis_near_antiparallel", "axis_antiparallel_exact", "identity_exact", "slightly_tilted", "slightly_tilted_exact"]
 
 
 def make_cell(rng, cls, need):
@@ -64,6 +64,9 @@ def pose_rotation(rng, pose, pattern_pos, cell):
     pos = np.asarray(pattern_pos, float)
     if pose in ("identity", "identity_exact"):
         return np.eye(3)
+    if pose.startswith("slightly_tilted"):
+        # the orientation in which the pattern is written, tilted by a fraction of a degree to two degrees about a random axis
+        return G.rotation_about(rng.normal(size=3), np.radians(10 ** rng.uniform(-0.7, 0.3)))
     if pose == "rot90":
         return G.rotation_about(np.eye(3)[int(rng.integers(3))], np.pi / 2 * int(rng.integers(1, 4)))
     if pose == "rot180":
